@@ -302,49 +302,42 @@ func (u *uploader) ListMultipartUploads(bucket string, marker *UploadListMarker,
 			}
 
 		} else {
+			// Every common prefix and every upload is one entry of the page. When
+			// the page is full, the entry that no longer fits starts the next
+			// page: its key and upload ID are returned as the next markers.
 			if match.CommonPrefix {
-				if !seenPrefixes[match.MatchedPart] {
-					result.CommonPrefixes = append(result.CommonPrefixes, match.AsCommonPrefix())
-					seenPrefixes[match.MatchedPart] = true
+				if seenPrefixes[match.MatchedPart] {
+					continue
 				}
+				if cnt >= limit {
+					truncated = true
+					result.NextUploadIDMarker = uploads[0].ID
+					result.NextKeyMarker = object
+					break
+				}
+				result.CommonPrefixes = append(result.CommonPrefixes, match.AsCommonPrefix())
+				seenPrefixes[match.MatchedPart] = true
+				cnt++
 
 			} else {
-				for idx, upload := range uploads {
+				for _, upload := range uploads {
+					if cnt >= limit {
+						truncated = true
+						result.NextUploadIDMarker = upload.ID
+						result.NextKeyMarker = object
+						break
+					}
 					result.Uploads = append(result.Uploads, ListMultipartUploadItem{
 						StorageClass: "STANDARD", // FIXME
 						Key:          object,
 						UploadID:     upload.ID,
 						Initiated:    ContentTime{Time: upload.Initiated},
 					})
-
 					cnt++
-					if cnt >= limit {
-						if idx != len(uploads)-1 { // if this is not the last iteration, we have truncated
-							truncated = true
-							result.NextUploadIDMarker = uploads[idx+1].ID
-							result.NextKeyMarker = object
-						}
-						goto done
-					}
 				}
-			}
-		}
-	}
-
-done:
-	// If we did not truncate while in the middle of an object's upload ID list,
-	// we need to see if there are more objects in the outer iteration:
-	if !truncated {
-		for iter.Next() {
-			object := iter.Key().(string)
-			if matched := prefix.Match(object, &match); matched && !match.CommonPrefix {
-				truncated = true
-
-				// This is not especially defensive; it assumes the rest of the code works
-				// as it should. Could be something to clean up later:
-				result.NextUploadIDMarker = iter.Value().([]*multipartUpload)[0].ID
-				result.NextKeyMarker = object
-				break
+				if truncated {
+					break
+				}
 			}
 		}
 	}
